@@ -116,6 +116,8 @@ pub struct MutableArchive {
     attributes_dirty: bool,
     /// Track modified blocks for CRC calculation (block_index -> filename)
     modified_blocks: HashMap<u32, String>,
+    /// CRC32 of the uncompressed data of blocks written in this session (for the attributes file)
+    modified_crcs: HashMap<u32, u32>,
     /// Updated HET table position for V3+ archives
     updated_het_pos: Option<u64>,
     /// Updated BET table position for V3+ archives  
@@ -163,6 +165,7 @@ impl MutableArchive {
             _special_file_blocks: HashMap::new(),
             attributes_dirty: false,
             modified_blocks: HashMap::new(),
+            modified_crcs: HashMap::new(),
             updated_het_pos: None,
             updated_bet_pos: None,
             updated_hash_table_pos: None,
@@ -481,6 +484,8 @@ impl MutableArchive {
         if archive_name != "(attributes)" {
             self.modified_blocks
                 .insert(block_index, archive_name.clone());
+            self.modified_crcs
+                .insert(block_index, crc32fast::hash(data));
         }
 
         // Update (listfile) if present (but not if we're adding the listfile itself)
@@ -844,6 +849,7 @@ impl MutableArchive {
         self.next_file_offset = None;
         self.attributes_dirty = false;
         self.modified_blocks.clear();
+        self.modified_crcs.clear();
 
         Ok(())
     }
@@ -897,7 +903,21 @@ impl MutableArchive {
                     .unwrap_or(0)
             });
 
-        let mut attrs = match Attributes::parse(&Bytes::from(attrs_data), block_count) {
+        // The stored attributes describe the block table as it was when they were written: after
+        // additions in this session that is the block count of the archive as opened. (Parsing them
+        // with the grown count fails; rebuilding them from scratch zeroed the CRC32 of every file.)
+        let stored_count = self
+            .archive
+            .block_table()
+            .map(|t| t.entries().len())
+            .unwrap_or(block_count);
+        // (the builder writes no entry for the (attributes) block itself: one entry fewer)
+        let attrs_bytes = Bytes::from(attrs_data);
+        let mut attrs = match [block_count, stored_count, stored_count.saturating_sub(1)]
+            .iter()
+            .find_map(|&count| Attributes::parse(&attrs_bytes, count).ok())
+            .ok_or(())
+        {
             Ok(a) => a,
             Err(_) => {
                 // If we can't parse existing attributes, create new ones
@@ -950,7 +970,12 @@ impl MutableArchive {
             }
 
             // Calculate CRC32 if enabled
-            if attrs.flags.has_crc32() && filename != "(listfile)" {
+            if attrs.flags.has_crc32()
+                && let Some(&crc) = self.modified_crcs.get(&(block_idx as u32))
+            {
+                // CRC of the data as it was handed to add_file_data
+                attrs.file_attributes[block_idx].crc32 = Some(crc);
+            } else if attrs.flags.has_crc32() && filename != "(listfile)" {
                 // Read the uncompressed file data to calculate CRC
                 match self.read_current_file(&filename) {
                     Ok(data) => {
